@@ -500,3 +500,163 @@ class HMixed:
             if len(ii) > self.icap or len(set(ii)) != len(ii) or any(not i for i in ii):
                 return False
         return True
+
+
+# ---------------------------------------------------------------- H-PAYLOAD (C04)
+class HPayload:
+    """One step from a few running orders under every payload-carrying message, with the payload
+    content alphabet (attributes, nesting, mixed text and tails, special characters, paragraphs
+    interleaved with items, storyBody anywhere among the roStorySend children)."""
+    name = 'H-PAYLOAD'
+    PKINDS = ('lean', 'rich', 'deep')
+
+    def __init__(self, max_list=2, body_len=3, meta_keys=5, pretty=(False, True), ro_meta_subsets=True):
+        self.max_list = max_list
+        self.body_len = body_len
+        self.meta_keys = META_KEYS[:meta_keys]
+        self.pretty = pretty
+        self.ro_meta_subsets = ro_meta_subsets
+
+    def pstory(self, sid, variant, pkind):
+        if pkind == 'lean':
+            return gen.story_xml(sid, variant, body=(('p', 'plain'),), timing='dur')
+        if pkind == 'rich':
+            return gen.story_xml(sid, variant, rich=True, timing='both',
+                                 body=(('p', 'unicode'), ('i', 'a', variant), ('p', 'empty'), ('x', 3), ('i', 'c', variant, ('slug', 'objID', 'note')), ('p', 'round')))
+        if pkind == 'deep':
+            deep = ('<mosExternalMetadata z="1"><mosSchema>deep</mosSchema><mosPayload><l1 a="1">t1<l2 b="&amp;2">t2<l3 c="3">'
+                    f'{gen.escape(gen.SPECIAL)}<l4/>tail4</l3>tail3</l2>tail2</l1></mosPayload></mosExternalMetadata>')
+            return (f'<story k="v" z={gen.quoteattr(gen.SPECIAL)}>{gen.id_tag("storyID", sid)}<storySlug>deep {variant}</storySlug>{deep}'
+                    f'<p>before <b>inline</b> after</p><item><itemID>a</itemID><itemSlug/></item></story>')
+        raise ValueError(pkind)
+
+    def pitem(self, iid, variant, pkind):
+        if pkind == 'lean':
+            return gen.item_xml(iid, variant, owner='pl')
+        if pkind == 'rich':
+            return gen.item_xml(iid, variant, owner='pl', rich=True, fields=('slug', 'objID', 'mosID', 'objType', 'note'))
+        if pkind == 'deep':
+            return (f'<item n="1" q={gen.quoteattr(gen.SPECIAL)}>lead{gen.id_tag("itemID", iid)}t0<itemSlug>deep {variant}</itemSlug>'
+                    f'<l1 a="1">t1<l2>t2<l3 c="3">{gen.escape(gen.SPECIAL)}</l3>tail3</l2>tail2</l1>tail1</item>')
+        raise ValueError(pkind)
+
+    def base_story(self, sid):
+        body = {'A': (('p', 'plain'), ('i', 'a'), ('p', 'round'), ('i', 'ab')), 'AB': (('i', 'a'),), 'C': (('p', 'empty'),)}[sid]
+        return gen.story_xml(sid, 0, body=body, timing='dur', rich=True)
+
+    def initial_states(self):
+        out = []
+        for layout in ('before', 'between'):
+            for ids in ((), ('A',), ('A', 'AB', 'C')):
+                out.append(gen.ro_text([self.base_story(i) for i in ids], layout, gen.meta_elems(4)))
+        if self.ro_meta_subsets:
+            # running orders holding every subset of the metadata keys (for roMetadataReplace)
+            for n in range(0, len(self.meta_keys) + 1):
+                for keys in itertools.combinations(self.meta_keys, n):
+                    meta = [meta_elem_xml(k, variant=0) for k in keys]
+                    out.append(gen.ro_text([self.base_story('A')], 'between', meta))
+        return out
+
+    def menu(self, view, res):
+        ids = view.story_ids
+        L = self.max_list
+        new = [p for p in gen.STORY_POOL[:6] if p not in ids]
+        inew = ['e', 'f', 'g']
+        for pretty in self.pretty:
+            for pkind in self.PKINDS:
+                base = {'pkind': pkind, 'pretty': pretty}
+                for pl in _lists(new[:L + 1], 1, L):
+                    payload = tuple((i, 1) for i in pl)
+                    yield dict(base, kind='StoryAppend', payload=payload)
+                    for tgt in (ids[:1] + ids[-1:] if ids else []) :
+                        yield dict(base, kind='StoryInsert', tgt=tgt, payload=payload)
+                        yield dict(base, kind='EAStoryInsert', tgt=tgt, payload=payload)
+                    yield dict(base, kind='EAStoryInsert', tgt=BLANK, payload=payload)
+                for tgt in ids:
+                    for pl in _lists([tgt] + new[:L], 1, L):
+                        payload = tuple((i, 1) for i in pl)
+                        yield dict(base, kind='StoryReplace', tgt=tgt, payload=payload)
+                        yield dict(base, kind='EAStoryReplace', tgt=tgt, payload=payload)
+                for s in view.stories:
+                    items = s.item_ids
+                    for pl in _lists(inew[:L + 1], 1, L):
+                        payload = tuple((i, 1) for i in pl)
+                        for tgt in items[:1] + items[-1:] + [BLANK]:
+                            yield dict(base, kind='ItemInsert', story=s.id, tgt=tgt, payload=payload)
+                            yield dict(base, kind='EAItemInsert', story=s.id, tgt=tgt, payload=payload)
+                    for tgt in items:
+                        for pl in _lists([tgt] + inew[:L], 1, L):
+                            payload = tuple((i, 1) for i in pl)
+                            yield dict(base, kind='ItemReplace', story=s.id, tgt=tgt, payload=payload)
+                            yield dict(base, kind='EAItemReplace', story=s.id, tgt=tgt, payload=payload)
+            # roStorySend: storyBody at every position, body children every sequence up to body_len
+            toks = [('p', 'plain'), ('p', 'empty'), ('i', 'e'), ('x', 1)]
+            for sid in ids:
+                for pos in ('first', 'middle', 'last', 'only'):
+                    for n in range(0, self.body_len + 1):
+                        for body in itertools.product(toks, repeat=n):
+                            for rich in (False, True):
+                                if rich and n != self.body_len:
+                                    continue
+                                yield {'kind': 'StorySend', 'sid': sid, 'body': body, 'body_pos': pos, 'rich': rich,
+                                       'pretty': pretty, 'timing': 'both'}
+            for n in range(0, 4):
+                for layout in ('before', 'between', 'after', 'none'):
+                    for pkind in self.PKINDS:
+                        yield {'kind': 'RunningOrderReplace', 'stories': tuple(gen.STORY_POOL[:n]), 'layout': layout,
+                               'pkind': pkind, 'pretty': pretty}
+            for n in range(1, len(self.meta_keys) + 1):
+                for keys in itertools.combinations(self.meta_keys, n):
+                    yield {'kind': 'MetaDataReplace', 'elems': keys, 'pretty': pretty}
+
+    def render(self, case, view):
+        k = case['kind']
+        pk = case.get('pkind', 'lean')
+        if k == 'MetaDataReplace':
+            text = gen.msg_metadata_replace([meta_elem_xml(key) for key in case['elems']])
+        elif k == 'RunningOrderReplace':
+            text = gen.msg_ro_replace([self.pstory(i, 1, pk) for i in case['stories']], case['layout'], gen.meta_elems(3, variant=1))
+        else:
+            text = render_case(case, lambda i, v: self.pstory(i, v, pk), lambda i, v: self.pitem(i, v, pk))
+        return gen.prettify(text) if case.get('pretty') else text
+
+    def accept(self, ctx):
+        return False
+
+
+class HCompletion(HMixed):
+    """Histories  <prefix of mutating messages> ; roDelete ; <every message class>.
+    In a state that is not completed the menu is roDelete plus a reduced prefix menu; in a
+    completed state it is the full H-MIXED menu plus a roCreate and a second roDelete."""
+    name = 'H-MIXED/completion'
+
+    def __init__(self, prefix_kinds=('StoryAppend', 'StoryDelete', 'StoryMove', 'ItemDelete', 'ItemInsert', 'MetaDataReplace',
+                                     'RunningOrderReplace', 'StorySend', 'EAStorySwap', 'ReadyToAir'), **kw):
+        super().__init__(**kw)
+        self._prefix = HMixed(kinds=prefix_kinds, max_list=1, meta_subsets=1, pool=kw.get('pool', 4), cap=kw.get('cap', 3))
+
+    def menu(self, view, res):
+        if view.completed:
+            yield from super().menu(view, res)
+            yield {'kind': 'RunningOrder'}
+        else:
+            yield {'kind': 'RunningOrderEnd'}
+            for c in self._prefix.menu(view, res):
+                if c['kind'] == 'RunningOrderEnd':
+                    continue
+                # only prefix messages whose references resolve (they build histories; failures are covered elsewhere)
+                vals = [v for k, v in c.items() if k in ('tgt', 'src', 'story', 'sid')] + list(c.get('srcs', ()))
+                if UNKNOWN in vals or BLANK in vals or ABSENT in vals:
+                    continue
+                yield c
+
+    def render(self, case, view):
+        if case['kind'] == 'RunningOrder':
+            return gen.ro_text([self.story('E')], 'before', gen.meta_elems(1), msg_id=3000)
+        return super().render(case, view)
+
+    def accept(self, ctx):
+        av = ctx.after_view
+        if av is None or av.base is None:
+            return False
+        return HMixed.accept(self, ctx)
